@@ -15,6 +15,8 @@ the conjunction of rule instances owned by other packs, re-evaluated here and re
      panicking callees, recursion) is discharged; C06's listed known findings concern malformed tables and are excluded.
   T5 no hang: every box-walk / read loop of the reader closure satisfies the progress rules (C07 R-BOXWALK.*, R-CLASS of
      consuming loops).
+  T6 no look-ahead: the fragmented lookups touch only the track fragment the sample lies in (C09 R-OWNFRAG), so removing
+     later fragments cannot change an earlier sample's timing or position.
 NOT decided: equality of what is returned with the complete file's results beyond T3 (a runtime relation).
 """
 import importlib
@@ -90,6 +92,9 @@ def run(fx, chk, tier):
     c07.run(fx, s7, tier)
     take(s7, ["R-BOXWALK", "R-NOREC"], "T5")
     take(s7, ["R-CLASS"], "T5", lambda o: ("|BOXWALK" in o["key"] or "|READ" in o["key"] or "|RANGE-READ" in o["key"] or ".floor" in o["rule"]))
+    # T6: what is returned for a sample does not depend on data behind it in the file
+    chk.rule("T6", "a sample's bytes and timing are computed from the fragment it lies in, never from a later one that a cut may remove (C09 R-OWNFRAG instances)")
+    n["T6"] = compose(fx, chk, tier, "T6", "C09", ["R-OWNFRAG"], floor=5, what="fragment element accesses in the lookups")
     chk.floor("T1", "top-level child-size hand-offs", n["T1"], 8)
     chk.floor("T2", "reader-side I/O call expressions", n["T2"], 300)
     chk.floor("T3", "payload pairing obligations", n["T3"], 3)
